@@ -321,6 +321,14 @@ type c20Conn struct {
 	closed  bool
 	mark    int  // end of the greeting (-1 = none)
 	crossed bool // one Read returned bytes from both sides of mark (diagnostic only)
+	// optional gate (concurrent scenarios): the Read that would deliver the byte at offset
+	// gateAt first closes parked and then waits for gate — the application has sent
+	// data[:gateAt] and pauses. No chunk crosses gateAt.
+	gate       chan struct{}
+	parked     chan struct{}
+	gateAt     int
+	gatePassed bool
+	gateWatchdog bool
 }
 
 func (c *c20Conn) Read(p []byte) (int, error) {
@@ -335,7 +343,19 @@ func (c *c20Conn) Read(p []byte) (int, error) {
 		}
 		return 0, io.EOF
 	}
+	if c.gate != nil && !c.gatePassed && c.off == c.gateAt {
+		close(c.parked)
+		select {
+		case <-c.gate:
+		case <-time.After(30 * time.Second):
+			c.gateWatchdog = true
+		}
+		c.gatePassed = true
+	}
 	end := len(c.data)
+	if c.gate != nil && !c.gatePassed && c.gateAt > c.off {
+		end = c.gateAt
+	}
 	if c.byteWise {
 		end = c.off + 1
 	} else {
@@ -811,9 +831,9 @@ func c20TargetMatches(v *c20Verdict, target string) (ok bool, field string) {
 
 // check runs one (stream, delivery) case against the real code and compares with v.
 // stream = the bytes the application sends (message [+ trailing bytes]); EOF follows.
-func (mo *c20Monitor) check(stream []byte, d c20Delivery, v *c20Verdict, class string) {
-	run, cfg := mo.run, mo.cfg
-	conn := &c20Conn{data: stream, cuts: d.Cuts, byteWise: d.ByteWise, mark: v.GreetEnd}
+// mkDetail builds the witness-detail function for one case.
+func (mo *c20Monitor) mkDetail(conn *c20Conn, stream []byte, d c20Delivery, v *c20Verdict, class string) func(o *c20Obs, extra map[string]any) map[string]any {
+	cfg := mo.cfg
 	detail := func(o *c20Obs, extra map[string]any) map[string]any {
 		m := map[string]any{
 			"server": cfg.Name, "class": class, "stream_hex": c20Hex(stream), "stream_len": len(stream),
@@ -830,7 +850,21 @@ func (mo *c20Monitor) check(stream []byte, d c20Delivery, v *c20Verdict, class s
 		}
 		return m
 	}
+	return detail
+}
+
+// check runs one (stream, delivery) case against the real code and compares with v.
+func (mo *c20Monitor) check(stream []byte, d c20Delivery, v *c20Verdict, class string) {
+	conn := &c20Conn{data: stream, cuts: d.Cuts, byteWise: d.ByteWise, mark: v.GreetEnd}
+	detail := mo.mkDetail(conn, stream, d, v, class)
 	o := c20Exec(conn, mo.exec)
+	mo.judge(conn, &o, stream, d, v, class, detail)
+}
+
+// judge compares what the real code did on conn (observation o) with the reference verdict v.
+func (mo *c20Monitor) judge(conn *c20Conn, op *c20Obs, stream []byte, d c20Delivery, v *c20Verdict, class string, detail func(o *c20Obs, extra map[string]any) map[string]any) {
+	run, cfg := mo.run, mo.cfg
+	o := *op
 	run.Eval(1)
 	run.Count("cases_"+d.Kind, 1)
 	tgt := "C20:" + cfg.Target
